@@ -1624,7 +1624,8 @@ func checkPayloadLimitTakenForAnyValue(c *report.Ctx) {
 					continue
 				}
 				k, isC := an.ConstInt(rr.Y)
-				if !isC || (k != -1 && k != -2) {
+				// (a comparison with the largest int64 - the open upper end of a shared range helper - says nothing)
+				if !isC || (k != -1 && k != -2 && k != 9223372036854775807) {
 					bad = append(bad, sprintf("%s %s %s", an.Path(rr.X), rr.Op, an.Path(rr.Y)))
 					pos = st.Pos()
 				}
